@@ -361,6 +361,47 @@ add(["C10"],"flatten-ignores-operator",True,"R10.3",PA,
 """if ch, ok := child.(*ast.SubjectSetRewrite); ok && ch != nil {""")
 add(["C10"],"neg-operator-test-on-token",False,"",PA,
 """			case op == ast.OperatorAnd && tailIsOr:""","""			case item.Typ == itemOperatorAnd && tailIsOr:""")
+
+add(["C10","C12"],"neg-precedence-table",False,"",PA,
+"""			switch op := setOperation(item.Typ); {
+			case op == ast.OperatorAnd && tailIsOr:""","""			prec := map[ast.Operator]int{ast.OperatorOr: 1, ast.OperatorAnd: 2}
+			switch op := setOperation(item.Typ); {
+			case prec[op] > prec[ast.OperatorOr] && tailIsOr:""",
+PA,"""			case op == ast.OperatorAnd && tail != root:""","""			case prec[op] > prec[ast.OperatorOr] && tail != root:""")
+
+add(["C10"],"array-arm-without-separator",True,"R10.4",PA,
+"""				types = append(types, p.parseTypeUnion(itemAngledRight)...)
+				p.match(optional(","))
+""","""				types = append(types, p.parseTypeUnion(itemAngledRight)...)
+""")
+add(["C10","C11"],"neg-separator-after-switch",False,"",PA,
+"""				types = append(types, p.parseTypeUnion(itemAngledRight)...)
+				p.match(optional(","))
+			case item.Val == "SubjectSet":
+				types = append(types, p.matchSubjectSet())
+				p.match("[", "]", optional(","))
+			case item.Typ == itemParenLeft:
+				types = append(types, p.parseTypeUnion(itemParenRight)...)
+				p.match("[", "]", optional(","))
+			default:
+				types = append(types, ast.RelationType{Namespace: item.Val})
+				p.addCheck(checkNamespaceExists(item))
+				p.match("[", "]", optional(","))
+			}
+""","""				types = append(types, p.parseTypeUnion(itemAngledRight)...)
+			case item.Val == "SubjectSet":
+				types = append(types, p.matchSubjectSet())
+				p.match("[", "]")
+			case item.Typ == itemParenLeft:
+				types = append(types, p.parseTypeUnion(itemParenRight)...)
+				p.match("[", "]")
+			default:
+				types = append(types, ast.RelationType{Namespace: item.Val})
+				p.addCheck(checkNamespaceExists(item))
+				p.match("[", "]")
+			}
+			p.match(optional(","))
+""")
 add(["C19"],"legacy-watcher-drops-last-good",True,"R19.2","internal/driver/config/namespace_watcher.go","","") if False else None
 out=[]
 for props,name,pos,rule,es in C:
